@@ -50,7 +50,8 @@ Require Export Verif.Run.EvalSM Verif.Model.Monitors Verif.Model.Monitors3 Verif
 Definition proj_c03 (a : action) : bool := match a with AHttp _ _ | AInstaller (ICreatePlan _ _ _ _) _ => true | _ => false end.
 Definition mon_c03 (c : smcase) (t : list action) : bool :=
   match c with KSm _ _ url cup _ _ _ _ =>
-    accepts step3 {| url3 := url; kid3 := cup; seen3 := [] |} t && accepts step3a (init3a url cup) t end.
+    accepts step3 {| url3 := url; kid3 := cup; seen3 := [] |} t && accepts step3a (init3a url cup) t
+    && accepts step3f (init3f url cup) t end.
 
 Inductive c03any := K03 (c : c03case) | K03Sm (c : smcase).
 Definition check_c03any (c : c03any) : N :=
